@@ -431,6 +431,26 @@ m("panicapi-readnsecs-no-guard", "OWN-PANICAPI", ["C06"], "break", BS,
 m("panicapi-refactor-guard-spelling", "OWN-PANICAPI", ["C06"], "refactor", BS,
   "\tif int64(d.scale)-9 < math.MinInt32 {", "\tif shifted := int64(d.scale) - 9; shifted < math.MinInt32 {", "", True, "guard expression kept in a local")
 
+
+m("bounds-offset-hour-25", "TAB-BOUNDS", ["C02", "C15"], "break", TS,
+  "\t\tif hourOffset >= 24 || minuteOffset >= 60 {", "\t\tif hourOffset > 24 || minuteOffset >= 60 {", "boundary 24", True, "an offset of +24:00 is accepted")
+m("bounds-refactor-offset-spelling", "TAB-BOUNDS", ["C02", "C15"], "refactor", TS,
+  "\t\tif hourOffset >= 24 || minuteOffset >= 60 {", "\t\tif hourOffset > 23 || !(minuteOffset < 60) {", "", True, "same boundaries, other spelling")
+m("bounds-maxid-zero-undeclared", "TAB-BOUNDS", ["C10"], "break", RL,
+  "\tif maxID < 0 {\n\t\tif imp == nil", "\tif maxID <= 0 {\n\t\tif imp == nil", "boundary 0", True, "a declared max_id of 0 is treated as undeclared")
+m("bounds-intvalue-off-by-one", "TAB-BOUNDS", ["C13"], "break", RD,
+  "\tif *i > math.MaxInt32 || *i < math.MinInt32 {", "\tif *i >= math.MaxInt32 || *i < math.MinInt32 {", "boundary 2147483648", True, "IntValue refuses 2^31-1")
+m("negzero-big-arm-forgets", "ORD-NEGZERO", ["C07"], "break", BS,
+  "\t\tisZero = i.BitLen() == 0\n", "", "zero flag", True, "a padded negative zero of 9 bytes is accepted")
+m("appendalias-field-path", "OWN-APPENDALIAS", ["C16"], "break", FD,
+  "\t\tnewpath := make([]int, len(path)+1)\n\t\tcopy(newpath, path)\n\t\tnewpath[len(path)] = i\n", "\t\tnewpath := append(path, i)\n", "inspect", True,
+  "sibling fields of a deeply embedded struct share one index path")
+
+
+m("indexpair-adjust-shares-index", "TAB-INDEXPAIR", ["C09", "C11"], "break", ST,
+  "\tsymbols := s.symbols[:maxID]\n\tindex := buildIndex(symbols, 1)\n", "\tsymbols := s.symbols[:maxID]\n\tindex := s.index\n", "Adjust", True,
+  "a shrunk import still resolves text beyond its max_id")
+
 os.makedirs(os.path.dirname(os.path.abspath(__file__)), exist_ok=True)
 with open(os.path.join(os.path.dirname(os.path.abspath(__file__)), "core.json"), "w") as f:
     json.dump(M, f, indent=1)
